@@ -20,6 +20,9 @@ def _fr(x: Any) -> Fraction:
     return Fraction(*float(x).as_integer_ratio())
 
 
+KINKS = [0]  # number of order comparisons between equal values seen so far (see Dual._cmp)
+
+
 class Dual:
     __slots__ = ("re", "ep")
     __array_ufunc__ = None  # make numpy scalars defer to our reflected operators
@@ -74,6 +77,32 @@ class Dual:
 
     def __float__(self):
         return float(self.re)
+
+    # order comparisons (rate laws that branch on a sign: `if v < 0`, `-v if v < 0 else v`) look at the
+    # value only.  A comparison of EQUAL values is a kink of the right-hand side: the derivative the
+    # dual part then reports is the one-sided one of the branch Python takes; the hit is counted so that
+    # the caller can refrain from judging a Jacobian at a point where no derivative exists.
+    def _cmp(self, o):
+        o = Dual.lift(o)
+        if self.re == o.re:
+            KINKS[0] += 1
+        return self.re, o.re
+
+    def __lt__(self, o):
+        a, b = self._cmp(o)
+        return a < b
+
+    def __le__(self, o):
+        a, b = self._cmp(o)
+        return a <= b
+
+    def __gt__(self, o):
+        a, b = self._cmp(o)
+        return a > b
+
+    def __ge__(self, o):
+        a, b = self._cmp(o)
+        return a >= b
 
 
 def exact_jacobian(m, t: Any, x: list[Any]) -> list[list[Fraction]]:
